@@ -236,13 +236,14 @@ theorem stage_finalLevelT {a : Arg} (ha : a ∈ L.p.args) (c : Call) (below : Li
   have hBi' : Inv L.p (defaultsAndEnvironC L.p L.src c) := hBi
   obtain ⟨hM, hMi⟩ := stage_mergeTree hp ha _ hinc hBi'
   obtain ⟨hA, hAi⟩ := stage_argvT hp ha below L.src.argv
-    (mergeConfig L.p (ownPart (nextName below) inc) (defaultsAndEnvironC L.p L.src c), sectionPart (nextName below) inc) hargv hMi
+    (mergeConfig L.p (ownPart (nextName below) inc) (defaultsAndEnvironC L.p L.src c),
+      update (sectionPart (nextName below) inc) (envPending c L below)) hargv hMi
   have hx0 : getK a.dest (ownParseT c L below inc).1 =
       evalKey a.dest (asgTree (ownPart (nextName below) inc) ++ asgArgvT L below L.src.argv)
         (getK a.dest (defaultsAndEnvironC L.p L.src c)) := by
     rw [evalKey_append, ← hM]
     exact hA
-  have hk := handleFold_keeps (L := ⟨L.name, L.p, { L.src with argv := [] }⟩) hp ha c hs _ (ownParseT c L below inc).1 hx0 hAi anc hanc
+  have hk := handleFold_keeps (L := { L with src := { L.src with argv := [] } }) hp ha c hs _ (ownParseT c L below inc).1 hx0 hAi anc hanc
   exact hk.1.trans hx0
 
 end
